@@ -231,6 +231,10 @@ def _validate_stmt(s, shapes):
         assert len(shapes[1]) <= n and all(a == b or a == 1 for a, b in zip(shapes[1][::-1], shapes[0][::-1]))
 
 
+class MbInfoBuildError(Exception):
+    """da.map_blocks (or reading out.chunks right after it) raised for an mb_info statement."""
+
+
 @P.op("mb_info", "map_blocks_info")
 class _MbInfo:
     @staticmethod
@@ -328,10 +332,16 @@ class _MbInfo:
             "in_cum": [[_cum(c) for c in ch] for ch in in_chunks],
             "new_cum": _cum(s["new_chunks"]) if s.get("new_chunks") else [0, 1],
         }
-        out = da.map_blocks(FNS[s["mode"]], *arrays, cfg=cfg, **kw)
+        try:
+            out = da.map_blocks(FNS[s["mode"]], *arrays, cfg=cfg, **kw)
+            out_chunks = tuple(tuple(int(v) for v in c) for c in out.chunks)
+        except NotImplementedError:
+            raise
+        except Exception as e:  # counted apart from other statements' build rejections
+            raise MbInfoBuildError(f"{s['variant']}{len(a)} {type(e).__name__} {util.innermost_repo_frame(e)} {e}") from e
         CALLS[tag] = {
             "in_chunks": in_chunks,
-            "out_chunks": tuple(tuple(int(v) for v in c) for c in out.chunks),
+            "out_chunks": out_chunks,
             "out_dtype": out.dtype,
             "rechunked_second": len(a) > 1 and arrays[1] is not a[1],
         }
@@ -656,12 +666,16 @@ def _placement_labels(prog, vars_chunks):
     return labs
 
 
+UNFROZEN_LAYOUT_OPS = ("sliding_window_view", "swv_reduce", "repeat", "broadcast_to", "reshape", "ravel")
+
+
 def _outside_domain(prog):
     """Design-round finding F7 and its siblings (not about map_blocks, not listed): a node that fixes chunk
     metadata at construction and has no ChunksFreeze (sliding_window_view, repeat: per-block adjust_chunks;
-    broadcast_to: its own _chunks) downstream of a sliding-window reduction raises 'adjust_chunks specified with N
-    blocks' / 'Missing dependency' or, for broadcast_to, silently reads the wrong input blocks once the native
-    rewrite moved the reduction onto the input's chunks.  Steered around, counted."""
+    broadcast_to: its own _chunks; reshape/ravel: the input->output chunk plan) downstream of a sliding-window
+    reduction raises 'adjust_chunks specified with N blocks' / 'Missing dependency' / 'cannot reshape array of
+    size N' or, for broadcast_to, silently reads the wrong input blocks once the native rewrite moved the
+    reduction onto the input's chunks.  Steered around, counted."""
     L = len(prog["leaves"])
     wr = set()
     for k, s in enumerate(prog["stmts"]):
@@ -672,7 +686,7 @@ def _outside_domain(prog):
     if not wr:
         return None
     for k, s in enumerate(prog["stmts"]):
-        if s["op"] in ("sliding_window_view", "swv_reduce", "repeat", "broadcast_to"):
+        if s["op"] in UNFROZEN_LAYOUT_OPS:
             if any(_ancestors(prog, j) & wr for j in s["args"]):
                 return "rejected:outside-C20|unfrozen-layout-node-over-window-reduction(F7)"
     return None
